@@ -173,7 +173,17 @@ def generate(tier, seed):
             reg[3] = -90 * s - rnd.randint(1, 9)
         elif f == 4:
             reg[0], reg[1] = -h, 2 * h
-        elif f == 5:
+        if f in (5, 6, 7) and (i // 12) % 3 == 1:
+            # a bad coordinate must be refused for EVERY kind of region, a full-globe one included
+            w = rnd.randint(-h, 0)
+            e = w + 2 * h
+            reg[0], reg[1] = w, e
+            lons = [w, e, 0]
+        elif f in (5, 6, 7) and (i // 12) % 3 == 2:
+            # ... and a zero-width one
+            reg[1] = reg[0]
+            lons = [w, w, 0]
+        if f == 5:
             lons[1] = 2 * h + 1
         elif f == 6:
             lons[0] = -h - 1
